@@ -124,3 +124,4 @@ Print Assumptions C10_paired_exclusive.
 Print Assumptions C10_composed_invariant.
 Print Assumptions C10_honest_errors_are_quantity_errors.
 Print Assumptions C10_composed_wellformed.
+Print Assumptions C10b_quantity_errors_reachable_in_model.
